@@ -46,7 +46,7 @@ func init() {
 		MaxSteps:     200000,
 		YieldFiles:   []string{"socks5/stream.go", "httpproxy/stream.go", "httpproxy/client.go", "httpproxy/server.go", "ssnone/stream.go"},
 		QuickRuns:    24000,
-		ThoroughSecs: 600,
+		ThoroughSecs: 400,
 		Rule: "one run = one generated handshake (protocol, repository client or RFC-written harness client, auth mode and user table, presented credentials " +
 			"incl. near-miss variants, method list, command, TCP/UDP enablement, target address, fragmentation mode, abort code or proceed + stream lengths, " +
 			"transport knobs) under one seeded schedule; non-trivial = both ends reached the modelled end of the handshake (request checked at the server and " +
